@@ -166,3 +166,235 @@ Definition decode_str (input : list N) : option (list N) :=
 Definition b64_alphabet_ok (c : N) : bool :=
   ((65 <=? c) && (c <=? 90)) || ((97 <=? c) && (c <=? 122)) || ((48 <=? c) && (c <=? 57))
   || (c =? 45) || (c =? 95).
+
+(* ---------- base64url: canonical encodings ----------
+   decode() never looks at whether a byte is in the alphabet (encode_8_to_6 maps every other byte to 0, the
+   value of the letter A) and never checks the unused low bits of the last symbol of a 2- or 3-symbol tail.
+   canonical = alphabet only, length mod 4 <> 1, unused bits of the last symbol zero. *)
+Definition last_sym_ok (s : list N) : bool :=
+  match N.of_nat (length s) mod 4 with
+  | 2 => dec6 (last s 0) mod 16 =? 0
+  | 3 => dec6 (last s 0) mod 4 =? 0
+  | _ => true
+  end.
+Definition b64_canonical (s : list N) : bool :=
+  forallb b64_alphabet_ok s && negb (N.of_nat (length s) mod 4 =? 1) && last_sym_ok s.
+
+(* ---------- template filters: util::filterbuf<Filter,128> (cppcms/steal_buf.h) ----------
+   The filter object replaces the stream buffer of the output stream by a filterbuf with a 128-byte put
+   area, lets the value stream itself (any number of write()/put() calls = pieces), and releases.
+   std::streambuf::xsputn copies into the put area and calls overflow(c) with the next byte when it is full;
+   filterbuf::overflow converts the whole put area into the real sink (convert = F), empties it and stores c;
+   release() converts what is left.  State: (bytes that reached the real sink, content of the put area). *)
+Definition fb_cap : nat := 128.
+Section Filterbuf.
+  Variable F : list N -> list N.
+  Definition fb_putc (st : list N * list N) (c : N) : list N * list N :=
+    let (out, buf) := st in
+    if Nat.ltb (length buf) fb_cap then (out, buf ++ [c]) else (out ++ F buf, [c]).
+  Definition fb_write (st : list N * list N) (piece : list N) : list N * list N := fold_left fb_putc piece st.
+  Definition fb_release (st : list N * list N) : list N := let (out, buf) := st in out ++ F buf.
+  Definition fb_run (pieces : list (list N)) : list N := fb_release (fold_left fb_write pieces ([], [])).
+End Filterbuf.
+Definition filter_escape (pieces : list (list N)) : list N := fb_run escape pieces.
+Definition filter_urlencode (pieces : list (list N)) : list N := fb_run urlencode pieces.
+(* base64_urlencode records the whole value in a growing steal_buffer and encodes it at the end
+   (it has to: the block codec is not a homomorphism for concatenation) *)
+Definition filter_base64 (pieces : list (list N)) : list N := b64encode (concat pieces).
+
+(* ---------- form widgets: the context a value slot is rendered in (src/form.cpp) ----------
+   every value/id slot of an attribute is written as  value=" escape(v) "  (always the double quote), every
+   text slot follows a > that closed the opening tag. *)
+Inductive slot_ctx := AttrDq | ElemText.
+Definition slot_open (k : slot_ctx) : list N := match k with AttrDq => [61; 34] | ElemText => [62] end.
+Definition slot_close (k : slot_ctx) : list N := match k with AttrDq => [34] | ElemText => [60] end.
+Definition slot_end (k : slot_ctx) : N := match k with AttrDq => 34 | ElemText => 60 end.
+Definition render_slot (k : slot_ctx) (v : list N) : list N := slot_open k ++ escape v ++ slot_close k.
+(* what an HTML tokenizer does with such a slot: the value runs up to the first terminator byte *)
+Fixpoint take_until (d : N) (s : list N) : list N * list N :=
+  match s with
+  | [] => ([], [])
+  | c :: r => if c =? d then ([], s) else let (a, b) := take_until d r in (c :: a, b)
+  end.
+(* kind numbers = position in FORM_KINDS of checks/C15.py *)
+Definition widget_ctx (kind : N) : slot_ctx :=
+  match kind with
+  | 0 | 1 | 3 | 7 | 8 | 9 | 12 | 15 => AttrDq      (* text value (2x), hidden value, checkbox id, submit value, select/multi/radio id *)
+  | _ => ElemText                                   (* textarea value, message, help, error message, option texts *)
+  end.
+
+(* ---------- the same filter buffer in front of a sink that accepts `room` bytes and then fails ----------
+   convert() into the bounded sink writes everything, or what still fits (then the sink is full) and reports
+   failure; filterbuf::write then sets failbit on the stream and does NOT empty the put area; every later
+   write()/put() of the value is blocked by the stream's sentry; release() converts the put area once more. *)
+Section FilterbufSink.
+  Variable F : list N -> list N.
+  Variable room : nat.
+  Definition fbs_conv (sink chunk : list N) : list N * bool :=
+    let o := F chunk in
+    if Nat.leb (length sink + length o) room then (sink ++ o, true) else (firstn room (sink ++ o), false).
+  (* state: (bytes in the sink, put area, failbit) *)
+  Definition fbs_putc (st : list N * list N * bool) (c : N) : list N * list N * bool :=
+    match st with
+    | (sink, buf, failed) =>
+        if failed then st
+        else if Nat.ltb (length buf) fb_cap then (sink, buf ++ [c], false)
+        else let (sink', ok) := fbs_conv sink buf in
+             if ok then (sink', [c], false) else (sink', buf, true)
+    end.
+  Definition fbs_write (st : list N * list N * bool) (piece : list N) := fold_left fbs_putc piece st.
+  Definition fbs_release (st : list N * list N * bool) : list N * bool :=
+    match st with
+    | (sink, buf, failed) => let (sink', ok) := fbs_conv sink buf in (sink', ok && negb failed)
+    end.
+  Definition fbs_run (pieces : list (list N)) : list N * bool :=
+    fbs_release (fold_left fbs_write pieces ([], [], false)).
+End FilterbufSink.
+Definition filter_escape_sink (room : nat) (pieces : list (list N)) := fbs_run escape room pieces.
+(* util::urlencode(b,e,streambuf&) hands its ostreambuf_iterator to urlencode_impl BY VALUE and then asks the original
+   for failed(): it returns 0 whatever the sink did (finding C15/2).  So the sink gets the first `room` bytes, the call
+   reports success, the filter buffer never learns about the failure and release() reports success too. *)
+Definition urlencode_stream (room : nat) (s : list N) : list N * bool := (firstn room (urlencode s), true).
+Definition filter_urlencode_sink (room : nat) (pieces : list (list N)) : list N * bool :=
+  (fst (fbs_run urlencode room pieces), true).
+(* base64_urlencode: whole value recorded, then written block by block; a short write stops the stream *)
+Definition filter_base64_sink (room : nat) (pieces : list (list N)) : list N * bool :=
+  let o := b64encode (concat pieces) in (firstn room o, Nat.leb (length o) room).
+
+(* ---------- form widgets: the rendering skeleton (src/form.cpp) of the single-slot widgets ----------
+   widgets as the harness sets them up: name "n", no id, no message/help/error, valid, enabled, no extra attributes.
+   x = as_xhtml, t = as_table (else as_p).  e = the text written into the value slot (the code writes escape(value)). *)
+From Coq Require Import String Ascii.
+Fixpoint s2b (s : string) : list N :=
+  match s with EmptyString => [] | String a r => N_of_ascii a :: s2b r end.
+
+(* writers: a piece of rendering code is a function that prepends what it writes to what is written after it
+   (out << a << b  is  a >> b) *)
+Definition W := list N -> list N.
+Definition lit (s : string) : W := fun k => s2b s ++ k.
+Definition raw (l : list N) : W := fun k => l ++ k.
+Definition nop : W := fun k => k.
+Definition wseq (a b : W) : W := fun k => a (b k).
+Infix ">>" := wseq (at level 61, right associativity).
+Definition when (c : bool) (a : W) : W := if c then a else nop.
+Fixpoint wall (A : Type) (f : A -> W) (l : list A) : W :=
+  match l with [] => nop | a :: r => f a >> wall A f r end.
+
+(* base_widget::render; msg / err / help = the escaped text of that slot when the widget has one *)
+Definition base_render_l (lbl t : bool) (msg err help : option (list N)) (first second : W) : W :=
+  (if t then lit "<tr><th>" else lit "<p>") >>
+  (match msg with
+   | Some m => (if lbl then lit "<label for=""i"">" >> raw m >> lit "</label>" else raw m) >> when (negb t) (lit "&nbsp;")
+   | None => when t (lit "&nbsp;") end) >>
+  when t (lit "</th><td>") >>
+  (match err with Some m => lit "<span class=""cppcms_form_error"">" >> raw m >> lit "</span> "
+                | None => when t (lit "&nbsp;") end) >>
+  lit "<span class=""cppcms_form_input"">" >> first >> second >> lit "</span>" >>
+  (match help with Some m => lit "<span class=""cppcms_form_help"">" >> raw m >> lit "</span>" | None => nop end) >>
+  (if t then lit "</td></tr>" else lit "</p>") >> raw [10].
+Definition base_render_g := base_render_l false.      (* the widget has no id: the message is written without a label *)
+Definition base_render (t : bool) (first second : W) : W := base_render_g t None None None first second.
+(* base_widget::render_attributes with name n, and what text::render_attributes adds (nothing) *)
+Definition w_attrs : W := lit "name=""n"" ".
+(* base_html_input::render_input, first and second part *)
+Definition html_input_first (type : string) (value_part : W) : W :=
+  lit "<input type=""" >> lit type >> lit """ " >> w_attrs >> value_part.
+Definition html_input_second (x : bool) : W := if x then lit " />" else lit " >".
+(* text::render_value (also hidden), checkbox::render_value (unchecked) / submit::render_value *)
+Definition text_value_part (e : list N) : W := lit " value=""" >> raw e >> lit """".
+Definition ident_value_part (e : list N) : W := lit "value=""" >> raw e >> lit """ ".
+(* textarea::render_input *)
+Definition textarea_first : W := lit "<textarea " >> w_attrs.
+Definition textarea_second (e : list N) : W := lit ">" >> raw e >> lit "</textarea>".
+(* boolean attribute: selected="selected" in XHTML, selected in HTML *)
+Definition bool_attr (x : bool) (name : string) : W :=
+  if x then lit name >> lit "=""" >> lit name >> lit """ " else lit name >> lit " ".
+(* select::render_input / select_multiple::render_input; an element = (escaped id, escaped text, selected) *)
+Definition option_el (x : bool) (el : list N * list N * bool) : W :=
+  match el with
+  | (id, txt, sel) => lit "<option value=""" >> raw id >> lit """ " >> when sel (bool_attr x "selected") >>
+                      lit ">" >> raw txt >> lit "</option>" >> raw [10]
+  end.
+Definition select_first : W := lit "<select " >> w_attrs.
+Definition select_multi_first (x : bool) : W :=
+  (if x then lit "<select multiple=""multiple"" " else lit "<select multiple ") >> w_attrs.
+Definition select_second (x : bool) (els : list (list N * list N * bool)) : W :=
+  lit " >" >> raw [10] >> wall _ (option_el x) els >> lit "</select>".
+(* radio::render_input (vertical) *)
+Definition radio_el (x : bool) (el : list N * list N * bool) : W :=
+  match el with
+  | (id, txt, sel) => lit "<input type=""radio"" value=""" >> raw id >> lit """ " >> w_attrs >>
+                      when sel (bool_attr x "checked") >> (if x then lit "/> " else lit "> ") >>
+                      raw txt >> (if x then lit "<br/>" else lit "<br>") >> raw [10]
+  end.
+Definition radio_first : W := lit "<div class=""cppcms_radio"" ".
+Definition radio_second (x : bool) (els : list (list N * list N * bool)) : W :=
+  lit " >" >> raw [10] >> wall _ (radio_el x) els >> lit "</div>".
+Definition text_unset_first : W := html_input_first "text" nop.
+(* the same for a widget with id i: render_attributes writes the id before the name *)
+Definition text_unset_first_id : W := lit "<input type=""text"" id=""i"" " >> w_attrs.
+
+(* the 19 slots as the harness sets the widgets up (FORM_KINDS of checks/C15.py; the fixed ids/texts are the ones
+   the harness passes, including the ids that select_multiple generates when add(text, bool) is chosen) *)
+Definition render_w (kind : N) (x t : bool) (e : list N) : option W :=
+  match kind with
+  | 0 => Some (base_render t (html_input_first "text" (text_value_part e)) (html_input_second x))
+  | 1 => Some (html_input_first "text" (text_value_part e))                  (* render_input alone: first part only *)
+  | 2 => Some (base_render t textarea_first (textarea_second e))
+  | 3 => Some (html_input_first "hidden" (text_value_part e) >> html_input_second x)   (* hidden::render: no frame *)
+  | 4 => Some (base_render_g t (Some e) None None text_unset_first (html_input_second x))
+  | 5 => Some (base_render_g t None None (Some e) text_unset_first (html_input_second x))
+  | 6 => Some (base_render_g t None (Some e) None text_unset_first (html_input_second x))
+  | 7 => Some (base_render t (html_input_first "checkbox" (ident_value_part e)) (html_input_second x))
+  | 8 => Some (base_render t (html_input_first "submit" (ident_value_part e)) (html_input_second x))
+  | 9 => Some (base_render t select_first (select_second x [(e, s2b "shown", false); (s2b "o2", s2b "other", false)]))
+  | 10 => Some (base_render t select_first (select_second x [(s2b "id1", e, true); (s2b "o2", s2b "other", false)]))
+  | 11 => Some (base_render t select_first (select_second x [(s2b "id1", e, false)]))
+  | 12 => Some (base_render t (select_multi_first x) (select_second x [(e, s2b "shown", true); (s2b "1", s2b "other", true)]))
+  | 13 => Some (base_render t (select_multi_first x) (select_second x [(s2b "0", e, true); (s2b "o2", s2b "z", true)]))
+  | 14 => Some (base_render t (select_multi_first x) (select_second x [(s2b "0", e, true)]))
+  | 15 => Some (base_render t radio_first (radio_second x [(e, s2b "shown", false); (s2b "o2", s2b "other", false)]))
+  | 16 => Some (base_render t radio_first (radio_second x [(s2b "id1", e, false); (s2b "o2", s2b "other", true)]))
+  | 17 => Some (base_render t radio_first (radio_second x [(s2b "id1", e, false)]))
+  | 18 => Some (base_render_l true t (Some e) None None text_unset_first_id (html_input_second x))
+  | _ => None
+  end.
+Definition render_b (kind : N) (x t : bool) (e : list N) : option (list N) :=
+  match render_w kind x t e with Some w => Some (w []) | None => None end.
+(* mode of the harness: bit 0 = as_xhtml, bit 1 = as_table *)
+Definition render_full (kind mode : N) (v : list N) : option (list N) :=
+  render_b kind (N.odd mode) (N.odd (mode / 2)) (escape v).
+Definition render_supported (kind : N) : bool := kind <? 19.
+
+(* position of the value slot: where the renderings of two different slot texts first differ *)
+Fixpoint first_diff (a b : list N) : nat :=
+  match a, b with
+  | x :: a', y :: b' => if x =? y then S (first_diff a' b') else O
+  | _, _ => O
+  end.
+Definition render_or_nil (o : option (list N)) : list N := match o with Some h => h | None => [] end.
+Definition slot_pos (kind : N) (x t : bool) : nat :=
+  first_diff (render_or_nil (render_b kind x t [])) (render_or_nil (render_b kind x t [0])).
+Fixpoint ends_with (p s : list N) : bool :=
+  match s with
+  | [] => match p with [] => true | _ => false end
+  | _ :: s' => if Nat.eqb (List.length s) (List.length p) then starts p s else ends_with p s'
+  end.
+
+(* ---------- the error state of the OUTPUT STREAM after a filter (finding C15/1) ----------
+   filterbuf::steal/release and steal_buffer::steal/release re-seat the stream buffer with
+   std::basic_ios::rdbuf(sb), and that call clears the error state of the stream.  So whatever failbit/badbit the
+   stream had before the filter, or got from filterbuf::write while converting into a failing sink, is gone after
+   the filter; the value -1 that release() returns is ignored by filters::escape / filters::urlencode.
+   base64_urlencode writes to the stream after the release of its steal_buffer: a failure of those writes is kept,
+   but a failure that was there before the filter is cleared as well. *)
+Definition stream_good_after_rdbuf (failed_before failed_during : bool) : bool := true.
+Definition filter_escape_stream_ok (room : nat) (pieces : list (list N)) : bool :=
+  stream_good_after_rdbuf false (negb (snd (filter_escape_sink room pieces))).
+Definition filter_urlencode_stream_ok (room : nat) (pieces : list (list N)) : bool :=
+  stream_good_after_rdbuf false (negb (snd (filter_urlencode_sink room pieces))).
+Definition filter_base64_stream_ok (room : nat) (pieces : list (list N)) : bool :=
+  stream_good_after_rdbuf false false && snd (filter_base64_sink room pieces).
+(* a filter applied to a stream that had already failed: the value is written and the stream is good again *)
+Definition filter_on_failed_stream (F : list N -> list N) (v : list N) : list N * bool :=
+  (F v, stream_good_after_rdbuf true false).
